@@ -112,11 +112,11 @@ Definition newf (l : list frame) : list frame := filter is_newf l.
 (* a legitimate retransmission frame, given the journal and the live counter: the PossDup copy of a
    journaled message under that message's number, or a gap fill b -> n over numbers already used *)
 Definition retx_ok (rws : list (Z * frame)) (hi : Z) (g : frame) : Prop :=
-  (exists k f, In (k, f) rws /\ f_pd f = false /\ g = mkF (f_seq f) (f_ty f) true (f_id f) false)
+  (exists k f, In (k, f) rws /\ g = mkF (f_seq f) (f_ty f) true (f_id f) false)
   \/ (exists b n, g = mkF b T_SEQRESET false n true /\ b < n <= hi).
 
 Definition retx_msg (rws : list (Z * frame)) (hi : Z) (m : msg) : Prop :=
-  (exists k f, In (k, f) rws /\ f_pd f = false /\ m = replay_msg f)
+  (exists k f, In (k, f) rws /\ m = replay_msg f)
   \/ (exists b n, m = gapfill_msg b n /\ b < n <= hi).
 
 Definition instr_ok (rws : list (Z * frame)) (hi : Z) (i : instr) : Prop :=
@@ -142,7 +142,7 @@ Proof. intros a b c [? ?] [? ?]; split; [lia|eapply incl_tran; eauto]. Qed.
 
 Lemma retx_ok_mono : forall r r' hi hi' g, incl r r' -> hi <= hi' -> retx_ok r hi g -> retx_ok r' hi' g.
 Proof.
-  intros r r' hi hi' g Hi Hh [(k&f&?&?&?)|(b&n&?&?)]; [left|right].
+  intros r r' hi hi' g Hi Hh [(k&f&?&?)|(b&n&?&?)]; [left|right].
   - exists k, f; auto.
   - exists b, n; split; auto; lia.
 Qed.
@@ -150,7 +150,7 @@ Qed.
 Lemma instr_ok_mono : forall r r' hi hi' i, incl r r' -> hi <= hi' -> instr_ok r hi i -> instr_ok r' hi' i.
 Proof.
   intros r r' hi hi' i Hi Hh H. destruct i; simpl in *; auto;
-    (destruct H as [|[(k&f&?&?&?)|(b&n&?&?)]]; [left; auto|right; left; exists k, f; auto|
+    (destruct H as [|[(k&f&?&?)|(b&n&?&?)]]; [left; auto|right; left; exists k, f; auto|
       right; right; exists b, n; split; auto; lia]).
 Qed.
 
@@ -254,7 +254,7 @@ Proof.
   intros abort m rest out w k Hm Hs Hc Hk. unfold send_tail.
   destruct ((m_ty m =? T_TESTREQ) && negb (treq w)).
   { apply good_raise; auto; discriminate. }
-  destruct Hm as [Hn|[(kk&f&Hin&Hpd&->)|(b&n&->&Hbn)]].
+  destruct Hm as [Hn|[(kk&f&Hin&->)|(b&n&->&Hbn)]].
   - unfold is_new in Hn. apply andb_true_iff in Hn. destruct Hn as [Hty Hpd].
     apply negb_true_iff in Hty, Hpd. unfold number. rewrite Hty, Hpd.
     repeat split; simpl; auto; try discriminate.
@@ -344,9 +344,7 @@ Proof.
           constructor; [|constructor]. simpl. right; right.
           exists gfb, (if gfb <? f_seq f then f_seq f else gfe). split; auto; lia. }
         apply Forall_app. split.
-        { destruct (f_pd f) eqn:Epd.
-          - constructor; [simpl; discriminate|constructor].
-          - constructor; [|constructor]. simpl. right; left. exists k, f. auto. }
+        { constructor; [|constructor]. simpl. right; left. exists k, f. auto. }
         apply IH; auto.
 Qed.
 
@@ -358,7 +356,7 @@ Proof.
   - lia.
   - destruct (Z_le_gt_dec b (nout w)) as [|Hgt]; [left; auto|right].
     unfold recover. destruct (filter _ (rows w)) as [|[k f] l] eqn:E; auto.
-    assert (Hin : In (k, f) (filter (fun r => (b <=? fst r) && (fst r <=? (if e =? 0 then MAXSIZE else e))) (rows w)))
+    assert (Hin : In (k, f) (filter (fun r => (b <=? fst r) && (fst r <=? (if (e =? 0) || (MAXSIZE <? e) then MAXSIZE else e))) (rows w)))
       by (rewrite E; left; auto).
     apply filter_In in Hin. destruct Hin as [Hin Hc]. destruct (He _ _ Hin) as [_ Hlt].
     apply andb_true_iff in Hc. destruct Hc as [Hc _]. apply Z.leb_le in Hc. simpl in Hc. lia.
